@@ -43,6 +43,17 @@ WANT = [
     ("src/lz/hash234.rs", "HASH2_SIZE", None), ("src/lz/hash234.rs", "HASH3_SIZE", None),
 ]
 
+# price machinery of the normal encoder mode (Model/EncPrices.lean, Model/EncNormal.lean); a separate output file so
+# that a change there does not rebuild everything that imports Consts.lean
+WANT_PRICES = [
+    ("src/enc/range_enc.rs", "PRICES", None), ("src/enc/range_enc.rs", "MOVE_REDUCING_BITS", None),
+    ("src/enc/range_enc.rs", "BIT_PRICE_SHIFT_BITS", None),
+    ("src/enc/encoder.rs", "DIST_PRICE_UPDATE_INTERVAL", None), ("src/enc/encoder.rs", "ALIGN_PRICE_UPDATE_INTERVAL", None),
+    ("src/enc/encoder.rs", "PRICE_UPDATE_INTERVAL", None),
+    ("src/enc/encoder_normal.rs", "INFINITY_PRICE", None),
+]
+OUT_PRICES = os.path.join(os.path.dirname(OUT), "PriceConsts.lean")
+
 DECL = re.compile(r"(?:pub(?:\([a-z]+\))?\s+)?(?:const|static)\s+([A-Z0-9_]+)\s*:\s*([^=]+?)\s*=\s*(.*?);", re.S)
 
 def decls(path):
@@ -85,8 +96,16 @@ def ev(expr, env, ty):
     return fix(val)
 
 def main():
-    cache, env, lines, errs = {}, {}, [], []
-    for path, name, lean in WANT:
+    cache, env, errs = {}, {}, []
+    n1, c1 = emit(WANT, OUT, "", cache, env, errs)
+    n2, c2 = emit(WANT_PRICES, OUT_PRICES, "import LzmaVerif.Generated.Consts\n", cache, env, errs)
+    for e in errs: print("CONST-EXTRACT-ERROR " + e, file=sys.stderr)
+    print(f"consts: {n1 + n2} extracted, {len(errs)} errors, changed={c1 or c2}")
+    sys.exit(3 if errs else 0)
+
+def emit(want, out, imports, cache, env, errs):
+    lines = []
+    for path, name, lean in want:
         try:
             if path not in cache: cache[path] = decls(path)
             ty, expr = cache[path][name]
@@ -114,14 +133,12 @@ def main():
                 else: lines.append(f"def {ln} : Nat := {val}  -- {path}")
         except Exception as ex:
             errs.append(f"{path}:{name}: {type(ex).__name__}: {ex}")
-    text = "/-! GENERATED by tools/extract_consts.py from /repo's sources on every run. Do not edit. -/\nnamespace LzmaVerif.Consts\n\n" + "\n".join(lines) + "\n\nend LzmaVerif.Consts\n"
-    os.makedirs(os.path.dirname(OUT), exist_ok=True)
-    old = open(OUT).read() if os.path.exists(OUT) else None
+    text = imports + "/-! GENERATED by tools/extract_consts.py from /repo's sources on every run. Do not edit. -/\nnamespace LzmaVerif.Consts\n\n" + "\n".join(lines) + "\n\nend LzmaVerif.Consts\n"
+    os.makedirs(os.path.dirname(out), exist_ok=True)
+    old = open(out).read() if os.path.exists(out) else None
     if old != text:
-        open(OUT, "w").write(text)
-    for e in errs: print("CONST-EXTRACT-ERROR " + e, file=sys.stderr)
-    print(f"consts: {len(lines)} extracted, {len(errs)} errors, changed={old != text}")
-    sys.exit(3 if errs else 0)
+        open(out, "w").write(text)
+    return len(lines), old != text
 
 if __name__ == "__main__":
     main()
